@@ -60,3 +60,18 @@ func SignDigest(i int, digest []byte) []byte {
 	}
 	return s
 }
+
+// MirrorS returns the other encoding of the same ECDSA signature: (r, N-s, v^1). It is as valid as the original
+// (ecrecover - Go's and the EVM precompile - recovers the same key); signers that do not normalise s produce it.
+func MirrorS(sig []byte) []byte {
+	out := append([]byte{}, sig...)
+	if len(out) != 65 {
+		return out
+	}
+	n := crypto.S256().Params().N
+	sv := new(big.Int).SetBytes(out[32:64])
+	sv.Sub(n, sv)
+	copy(out[32:64], common.LeftPadBytes(sv.Bytes(), 32))
+	out[64] ^= 1
+	return out
+}
